@@ -25,6 +25,8 @@ def run(ctx):
     ctx.guarded('R13a', 'chunk_cache::disk', lambda: r13a(ctx))
     ctx.guarded('R13b', PUT, lambda: r13b(ctx))
     ctx.guarded('R13c', 'chunk_cache::disk', lambda: r13c(ctx))
+    ctx.rule('R13d', 're-open tracks every admissible file: put admits any item of at most the capacity (maybe_evict makes room for it), so the directory scan may leave a regular cache file untracked only when its length exceeds the capacity')
+    ctx.guarded('R13d', 'chunk_cache::disk::try_parse_cache_file', lambda: r13d(ctx))
 
 
 def arg_local_ty(a, t, i):
@@ -437,3 +439,25 @@ def r13c(ctx):
     ctx.check(builders - {'<chunk_cache::disk::CacheState as core::clone::Clone>::clone'} == {'chunk_cache::disk::CacheState::new'}, 'R13c', 'chunk_cache::disk', 'builders', '-', 'CacheState is only built by CacheState::new (and the derived Clone)', 'CacheState built in %s' % sorted(builders))
     callers = {b['qpath'] for b, _ in ctx.cg.call_sites('chunk_cache::disk::CacheState::new') if '::tests::' not in b['qpath']}
     ctx.check(callers == {INIT}, 'R13c', 'chunk_cache::disk', 'CacheState::new callers', '-', 'CacheState::new is only called by initialize_state', 'CacheState::new called from %s' % sorted(callers))
+
+
+def r13d(ctx):
+    from .core import edges_where
+    a = an(ctx.F.body('chunk_cache::disk::try_parse_cache_file'))
+    fn = a.path
+    is_len = lambda z: z[0] == 'call' and sg(z[1]).endswith('Metadata::len')
+    is_cap = lambda z: z[0] == 'param' and z[1] == 2
+    le = edges_where(a, lambda op, l, r: op == 'Le' and is_len(l) and is_cap(r))
+    somes = []
+    for (b, si, k, e) in a.ret_sites():
+        if k == 'ok':
+            for (sb, ssi, se) in a.flow.sources(e[3][0][1], (b, si)):
+                if se[0] == 'agg' and se[2].endswith('Option::Some'):
+                    somes.append((sb if sb is not None else b, ssi if sb is not None else si))
+    ok = bool(le) and bool(somes) and all(a.cfg.must_pass(b, via_edges=le) for (b, _) in somes)
+    ctx.check(ok, 'R13d', fn, 'admissible', a.loc(*somes[0]) if somes else '-', 'a file is tracked on the edge file length <= capacity (only longer files are left untracked)',
+              'the scan leaves a file of admissible size (length <= capacity) untracked, or tracks one that is not: after re-open the counters no longer match the files on disk')
+    # put has no size rejection of its own (the premise of the rule): no comparison of the item length with the capacity in put_impl
+    p = an(ctx.F.body(PUT))
+    rej = edges_where(p, lambda op, l, r: op in ('Gt', 'Ge', 'Lt', 'Le') and flow.mentions(l, lambda z: z[0] == 'field' and z[2] == 'len') and flow.mentions(r, lambda z: z[0] == 'field' and z[2] == 'capacity'))
+    ctx.check(not rej, 'R13d', PUT, 'premise', '-', 'put_impl admits items of any length up to the capacity (no size rejection): the scan has to track the same set')
